@@ -118,6 +118,8 @@ type Daemon struct {
 	// FuseFailDen: mounting through the (simulated) kernel fails with probability 1/FuseFailDen.
 	FuseFailDen int
 	Quiet       bool
+	// NoSources makes the source lookup (labels -> registry sources) answer with an empty list.
+	NoSources bool
 	// ExtraNeighbours are further layer digests listed in the image (labels) that the registry does not
 	// serve as eStargz (their pre-resolution fails), as in an image that mixes layer formats.
 	ExtraNeighbours []string
@@ -132,7 +134,13 @@ func NewDaemon(s *simrt.Sim, root string, layers []DaemonLayer, fcfg config.Conf
 		reg.Blobs[L.Built.Digest.String()] = L.Built.Blob
 	}
 	hosts := Hosts(reg, 20*time.Second, nil, plain)
-	opts := []stargzfs.Option{stargzfs.WithGetSources(source.FromDefaultLabels(hosts))}
+	base := source.FromDefaultLabels(hosts)
+	opts := []stargzfs.Option{stargzfs.WithGetSources(func(labels map[string]string) ([]source.Source, error) {
+		if d.NoSources {
+			return nil, nil // no provider knows a source right now (a legal answer of a source lookup)
+		}
+		return base(labels)
+	})}
 	if store != nil {
 		opts = append(opts, stargzfs.WithMetadataStore(store))
 	}
